@@ -199,3 +199,20 @@ def _uri_span(src):
 
 
 register("tls_uri_scheme_ports", span_custom("actix-tls/src/connect/uri.rs", _uri_span))
+
+
+def _max_conn_shape(src):
+    tls = "".join(m.group(0) for m in re.finditer(r"thread_local!\s*\{.*?\n\}", src, re.S))
+    setter = _block(src, r"pub fn max_concurrent_tls_connect\(num: usize\)\s*\{", "max_concurrent_tls_connect")
+    facts = [
+        # ONE limit for the whole process (a static atomic, not a thread-local) ...
+        ("max_conn_is_process_wide_static", _has(src, "pub ( crate ) static MAX_CONN : AtomicUsize = AtomicUsize :: new (") and "MAX_CONN:" not in tls.replace(" ", "").replace("MAX_CONN_COUNTER:", "")),
+        # ... stored into from whatever thread configures it ...
+        ("setter_stores_into_it", _has(setter, "MAX_CONN . store ( num , Ordering :: Relaxed ) ;")),
+        # ... and read when a thread's counter is created on first use
+        ("counter_is_thread_local_built_from_it", _has(tls, "static MAX_CONN_COUNTER : Counter = Counter :: new ( MAX_CONN . load ( Ordering :: Relaxed ) ) ;")),
+    ]
+    return _lean_facts("tlsMaxConnShape", facts), tls + setter
+
+
+register("tls_max_conn_shape", span_custom("actix-tls/src/accept/mod.rs", _max_conn_shape))
